@@ -319,11 +319,6 @@ theorem sentIn_append_left {a b : List Output} {x y : Nat} (h : sentIn a x y = t
   unfold sentIn at *
   rw [List.any_append, h, Bool.true_or]
 
-theorem mem_viewOf {n : Node} {i : ItemView} (w : WF n) (h : i ∈ (viewOf n).items) :
-    ∃ k it, n.store.get k = some it ∧ i = itemView (k, it) := by
-  rcases List.mem_map.mp h with ⟨⟨k, it⟩, hkv, rfl⟩
-  exact ⟨k, it, Store.get_of_mem w.nodup hkv, rfl⟩
-
 /-- The expression `directFail` evaluates for `peerUp` / `retryTick`, on the model's own observations. -/
 theorem direct_core (c : Cfg) (env : Env) (n n1 : Node) (w : WF n) (hc : n.cfg = c)
     (hs : n1.store = n.store) (hcfg : n1.cfg = n.cfg) (hnow : n1.now = n.now)
@@ -384,8 +379,8 @@ theorem direct_core (c : Cfg) (env : Env) (n n1 : Node) (w : WF n) (hc : n.cfg =
     cases hfi
 
 /-- `SentToDestination` on the model's own step: the only possible failure is the closed epidemic gate. -/
-theorem direct_step (c : Cfg) (env : Env) (past : List Event) (e : Event) (s : SpecSt) (n : Node)
-    (inv : RInv c past s n) :
+theorem direct_step (c : Cfg) (env : Env) (e : Event) (s : SpecSt) (n : Node)
+    (inv : VInv c s n) :
     directFail c s (obsOf (e, (step env n e).2, (step env n e).1)) ≠ some "direct-not-sent" := by
   unfold directFail
   simp only [obsOf]
@@ -491,8 +486,8 @@ theorem flood_core (c : Cfg) (env : Env) (n n1 : Node) (w : WF n) (hc : n.cfg = 
   · rfl
 
 /-- `EpidemicFlood` on the model's own step. -/
-theorem flood_step (c : Cfg) (env : Env) (past : List Event) (e : Event) (s : SpecSt) (n : Node)
-    (inv : RInv c past s n) :
+theorem flood_step (c : Cfg) (env : Env) (e : Event) (s : SpecSt) (n : Node)
+    (inv : VInv c s n) :
     floodFail c s (obsOf (e, (step env n e).2, (step env n e).1)) = none := by
   unfold floodFail
   simp only [obsOf]
@@ -541,8 +536,8 @@ theorem flood_step (c : Cfg) (env : Env) (past : List Event) (e : Event) (s : Sp
   · simp only [hcond, Bool.false_eq_true, if_false]
 
 /-- `survives_restart` (store part) on the model's own step. -/
-theorem restart_step (c : Cfg) (env : Env) (past : List Event) (e : Event) (s : SpecSt) (n : Node)
-    (inv : RInv c past s n) :
+theorem restart_step (c : Cfg) (env : Env) (e : Event) (s : SpecSt) (n : Node)
+    (inv : VInv c s n) :
     restartFail s (obsOf (e, (step env n e).2, (step env n e).1)) = none := by
   unfold restartFail
   simp only [obsOf]
@@ -557,30 +552,5 @@ theorem restart_step (c : Cfg) (env : Env) (past : List Event) (e : Event) (s : 
       simpa using hi
     simp [this]
   | _ => rfl
-
-/-- The C05 clauses other than `Retained` hold at every step of every history in the domain. -/
-theorem clauses_run (c : Cfg) (hfix : c.holdFix = true) (hexp : c.expiryNow = true) (env : Env) :
-    ∀ (fut past : List Event) (s : SpecSt) (n : Node) (i : Nat), Domain (past ++ fut) → RInv c past s n →
-    firstFail (fun c s o => (floodFail c s o).orElse fun _ => restartFail s o) c s i
-      ((trace env n fut).map obsOf) = none ∧
-    ∀ j, firstFail directFail c s i ((trace env n fut).map obsOf) ≠ some (j, "direct-not-sent")
-  | [], _, _, _, _, _, _ => ⟨rfl, fun _ h => by simp [trace, firstFail] at h⟩
-  | e :: fut, past, s, n, i, hdom, inv => by
-    simp only [trace, List.map_cons, firstFail]
-    rcases rinv_step c hfix hexp env past fut e hdom s n inv with ⟨_, h2⟩
-    have ih := clauses_run c hfix hexp env fut (past ++ [e]) _ _ (i + 1) (by simpa using hdom) h2
-    constructor
-    · rw [flood_step c env past e s n inv, restart_step c env past e s n inv]
-      simp only [Option.orElse]
-      exact ih.1
-    · intro j
-      have hd := direct_step c env past e s n inv
-      cases hdf : directFail c s (obsOf (e, (step env n e).2, (step env n e).1)) with
-      | none => simp only; exact ih.2 j
-      | some cls =>
-        simp only
-        intro h
-        cases h
-        exact hd hdf
 
 end Dtn7.Node
